@@ -92,7 +92,72 @@ pub fn probe_image(
             match wait_quiescent(&db, Duration::from_secs(20)) {
                 Some(d) if q1 => {
                     let listing = fs2.disk().listing();
-                    ev.insert("dump".into(), dump_json(&d, &u2, listing, ROOT));
+                    // which logs are still NEEDED: the largest sequence number in every log
+                    // other than the one being written, and the largest one in the tables of
+                    // the recovered version (a log whose records are all in tables is dead)
+                    let o3 = opts.to_options(ROOT, &fs2);
+                    let mut tablemax = 0u64;
+                    let mut tables_ok = true;
+                    for lvl in d.levels.iter() {
+                        for f in lvl.iter() {
+                            match raindb::verif::read_table_entries(&o3, f.number) {
+                                Ok(es) => {
+                                    for e in es {
+                                        tablemax = tablemax.max(e.1);
+                                    }
+                                }
+                                Err(_) => tables_ok = false,
+                            }
+                        }
+                    }
+                    let rootp = std::path::Path::new(ROOT);
+                    let mut walmax: Vec<[u64; 2]> = vec![];
+                    for p in listing.iter() {
+                        let (kind, n) = crate::simfs::classify(rootp, std::path::Path::new(p));
+                        if kind != "wal" || n as u64 == d.cur_wal {
+                            continue;
+                        }
+                        let fsd: Arc<dyn raindb::fs::FileSystem> = Arc::new(fs2.clone());
+                        if let Ok(mut rd) = raindb::verif::VLogReader::new(fsd, std::path::Path::new(p)) {
+                            let mut last = 0u64;
+                            let mut clean = true;
+                            loop {
+                                match rd.read_record() {
+                                    Ok(Some(rec)) if rec.len() >= 9 => {
+                                        // batch record: starting sequence (8 bytes LE), varint count
+                                        let mut s8 = [0u8; 8];
+                                        s8.copy_from_slice(&rec[0..8]);
+                                        let start = u64::from_le_bytes(s8);
+                                        let (mut cnt, mut shift, mut i) = (0u64, 0u32, 8usize);
+                                        while i < rec.len() {
+                                            cnt |= ((rec[i] & 0x7f) as u64) << shift;
+                                            if rec[i] & 0x80 == 0 {
+                                                break;
+                                            }
+                                            shift += 7;
+                                            i += 1;
+                                        }
+                                        if cnt > 0 {
+                                            last = last.max(start + cnt - 1);
+                                        }
+                                    }
+                                    Ok(Some(_)) => {}
+                                    Ok(None) => break,
+                                    Err(_) => {
+                                        clean = false;
+                                        break;
+                                    }
+                                }
+                            }
+                            if clean && last > 0 {
+                                walmax.push([n as u64, last]);
+                            }
+                        }
+                    }
+                    let mut dj = dump_json(&d, &u2, listing, ROOT);
+                    dj["tablemax"] = json!(if tables_ok { tablemax } else { 0 });
+                    dj["walmax"] = json!(walmax);
+                    ev.insert("dump".into(), dj);
                     ev.insert("quiet".into(), json!(true));
                 }
                 _ => {
